@@ -168,7 +168,7 @@ func ruleOpResolve(w *World, r *Report) {
 			return false
 		}
 		g, ok := addr.(*ssa.Global)
-		return ok && g.Name() == "builtinOperators"
+		return ok && nm(g) == "builtinOperators"
 	}
 	isOpMap := func(v ssa.Value) bool {
 		_, ok := loadOfField(v, "Config", "OperatorMap")
@@ -338,7 +338,7 @@ func ruleBoolArity(w *World, r *Report) {
 			isBool, few := false, false
 			for _, fc := range factsAt(b) {
 				if c, ok := fc.Cond.(*ssa.Call); ok && fc.Truth && c.Call.StaticCallee() != nil && len(c.Call.Args) == 1 && c.Call.Args[0] == ssa.Value(nodeLit) {
-					switch c.Call.StaticCallee().Name() {
+					switch nm(c.Call.StaticCallee()) {
 					case "isBoolOpNode":
 						isBool = true
 					}
@@ -376,7 +376,7 @@ func lenArgIs(v ssa.Value, of ssa.Value) bool {
 		return false
 	}
 	b, ok := c.Call.Value.(*ssa.Builtin)
-	return ok && b.Name() == "len" && len(c.Call.Args) == 1 && c.Call.Args[0] == of
+	return ok && nm(b) == "len" && len(c.Call.Args) == 1 && c.Call.Args[0] == of
 }
 
 var boolArityWitnesses = []Witness{
@@ -580,7 +580,7 @@ func fetcherTermCtx(fn *ssa.Function) *termCtx {
 			}
 		}
 		if c, ok := v.(*ssa.Call); ok {
-			if b, okb := c.Call.Value.(*ssa.Builtin); okb && b.Name() == "len" && len(c.Call.Args) == 1 {
+			if b, okb := c.Call.Value.(*ssa.Builtin); okb && nm(b) == "len" && len(c.Call.Args) == 1 {
 				return "len(" + tc.term(c.Call.Args[0]) + ")"
 			}
 		}
